@@ -405,17 +405,17 @@ def _scenarios(pid, tier, rng):
     k = (lambda a, b: a if q else b)
     if pid == "C04":
         av = sorted(AVERAGES)
-        return (fam_kinds(rng, pid, av, k(110, 700), rvs=(4, 4, 2, 0, 5, 3, 8), tf_share=0.2)
-                + fam_kinds(rng, pid + "z", av, k(60, 400), styles=ZEROISH, rvs=(4, 0, 0, 1, 2))
-                + fam_chain(rng, pid, k(80, 500)))
+        return (fam_kinds(rng, pid, av, k(150, 700), rvs=(4, 4, 2, 0, 5, 3, 8), tf_share=0.2)
+                + fam_kinds(rng, pid + "z", av, k(80, 400), styles=ZEROISH, rvs=(4, 0, 0, 1, 2))
+                + fam_chain(rng, pid, k(110, 500)))
     if pid == "C05":
-        return (fam_kinds(rng, pid, sorted(C05_KINDS), k(200, 1300), tf_share=0.25)
-                + fam_chain(rng, pid, k(50, 300), targets=("STDEV", "BBANDS", "KC", "STDEVTHRES", "Counter", "STDEV", "BBANDS")))
+        return (fam_kinds(rng, pid, sorted(C05_KINDS), k(280, 1300), tf_share=0.25)
+                + fam_chain(rng, pid, k(70, 300), targets=("STDEV", "BBANDS", "KC", "STDEVTHRES", "Counter", "STDEV", "BBANDS")))
     if pid == "C06":
-        return (fam_kinds(rng, pid, sorted(C06_KINDS), k(200, 1300), tf_share=0.25)
-                + fam_chain(rng, pid, k(50, 300), targets=("RSI", "MACD", "ROC", "STOCH", "TSI")))
+        return (fam_kinds(rng, pid, sorted(C06_KINDS), k(280, 1300), tf_share=0.25)
+                + fam_chain(rng, pid, k(70, 300), targets=("RSI", "MACD", "ROC", "STOCH", "TSI")))
     if pid == "C09":
-        return (fam_kinds(rng, pid, ALL_KINDS, k(220, 1400), styles=DEGENERATE, twins=())
+        return (fam_kinds(rng, pid, ALL_KINDS, k(300, 1400), styles=DEGENERATE, twins=())
                 + fam_kinds(rng, pid, ALL_KINDS, k(80, 500), styles=DEGENERATE, twins=(), tf_share=1.0)
                 + fam_chain(rng, pid, k(60, 400), twins=(),
                             targets=("STDEV", "BBANDS", "KC", "STDEVTHRES", "RSI", "MACD", "ROC", "STOCH", "TSI",
@@ -424,7 +424,7 @@ def _scenarios(pid, tier, rng):
                 # calculate_index (positive, negative, Hexital's default), on members with their own timeframe
                 + fam_maintenance(rng, pid, k(50, 300)))
     if pid == "C10":
-        return fam_kinds(rng, pid, ALL_KINDS, k(300, 1800), twins=(), tf_share=0.3)
+        return fam_kinds(rng, pid, ALL_KINDS, k(420, 1800), twins=(), tf_share=0.3)
     if pid == "C01":
         return (fam_kinds(rng, pid, ALL_KINDS, k(200, 1200), tf_share=0.6)
                 + fam_chain(rng, pid, k(40, 200)) + fam_amorph(rng, pid, k(40, 240))
@@ -437,10 +437,10 @@ def _scenarios(pid, tier, rng):
                             reverse=True, twins=())
                 + fam_hexital(rng, pid, k(40, 240), twins=("longer",)))
     if pid == "C03":
-        return (fam_manager(rng, pid, k(250, 1700)) + fam_disorder(rng, pid, k(30, 200))
+        return (fam_manager(rng, pid, k(350, 1700)) + fam_disorder(rng, pid, k(40, 200))
                 + fam_aware(rng, pid, k(20, 150)))
     if pid == "C12":
-        return fam_manager(rng, pid, k(300, 2000), fills=(True,), twins=("batch",))
+        return fam_manager(rng, pid, k(420, 2000), fills=(True,), twins=("batch",))
     if pid == "C11":
         return (fam_manager(rng, pid, k(220, 1400), has=(True,), twins=("batch",))
                 + fam_manager(rng, pid, k(60, 300), has=(True,), twins=("batch",), kinds=("EMA", "RSI", "ATR", "KC"),
@@ -453,21 +453,21 @@ def _scenarios(pid, tier, rng):
                               kinds=("SMA", "EMA", "RSI", "STOCH", "ATR", "MACD", "BBANDS", "OBV"), tag="b")
                 + fam_survivors(rng, pid, k(90, 600)))
     if pid == "C18":
-        return (fam_manager(rng, pid, k(240, 1600), tzs=TZS[1:], fills=(False, True), hexshare=0.15)
-                + fam_transitions(rng, pid, k(100, 600)) + fam_aware(rng, pid, k(20, 150)))
+        return (fam_manager(rng, pid, k(400, 1600), tzs=TZS[1:], fills=(False, True), hexshare=0.15)
+                + fam_transitions(rng, pid, k(160, 600)) + fam_aware(rng, pid, k(20, 150)))
     if pid == "C16":
-        return (fam_movement(rng, pid, k(120, 800)) + fam_patterns(rng, pid, k(60, 400))
-                + fam_amorph(rng, pid, k(60, 400)))
+        return (fam_movement(rng, pid, k(160, 800)) + fam_patterns(rng, pid, k(80, 400))
+                + fam_amorph(rng, pid, k(80, 400)))
     if pid == "C17":
-        return fam_movement(rng, pid, k(140, 900)) + fam_patterns(rng, pid, k(140, 900))
+        return fam_movement(rng, pid, k(180, 900)) + fam_patterns(rng, pid, k(180, 900))
     if pid == "C14":
         return fam_maintenance(rng, pid, k(220, 1400)) + fam_readd(rng, pid, k(40, 300))
     if pid == "C13":
         return fam_interference(rng, pid, k(90, 1000))
     if pid == "C19":
-        return fam_reads(rng, pid, k(200, 1200), forms=("candle", "dict", "list", "list_ts_last", "dict_iso"))
+        return fam_reads(rng, pid, k(280, 1200), forms=("candle", "dict", "list", "list_ts_last", "dict_iso"))
     if pid == "C20":
-        return fam_reads(rng, pid, k(220, 1300), touches=False)
+        return fam_reads(rng, pid, k(300, 1300), touches=False)
     if pid == "C08":
         # (+ a member that leaves, candles keep arriving, and a member on the same timeframe joins again)
         return fam_hexital(rng, pid, k(220, 1300)) + fam_readd(rng, pid, k(24, 160), twins=("standalone",))
@@ -601,11 +601,17 @@ def fam_maintenance(rng, pid, count):
         else:
             tf = pick_tf(rng) if rng.random() < 0.35 else None
             kinds = [rng.choice(NESTED), rng.choice(SIMPLE), rng.choice(NESTED + SIMPLE)]
-            cfgs = _uniq([rand_cfg(rng, k, tf=tf if rng.random() < 0.5 else None, rv=rng.choice([4, 4, 0, 2, 3, 5]))
-                          for k in kinds])
-            late = _uniq(cfgs + [rand_cfg(rng, rng.choice(NESTED + SIMPLE), tf=tf if rng.random() < 0.5 else None)])[len(cfgs):]
+            # one timeframe shared by some members, or (every fourth Hexital) a ladder of different ones:
+            # several managers that do not exist yet are then created by one registration
+            ladder = rng.choice([["S10", "S30", "T1"], ["T1", "T5", "T15"], ["S5", "S10", "S30"]]) if t % 4 == 1 else None
+            if ladder:
+                tf = ladder[0]
+            tf_of = (lambda: rng.choice(ladder + [None])) if ladder else (lambda: tf if rng.random() < 0.5 else None)
+            cfgs = _uniq([rand_cfg(rng, k, tf=tf_of(), rv=rng.choice([4, 4, 0, 2, 3, 5])) for k in kinds])
+            late = _uniq(cfgs + [rand_cfg(rng, rng.choice(NESTED + SIMPLE), tf=tf_of())])[len(cfgs):]
             sc = {"id": f"{pid}/hex/{'+'.join(c.kind for c in cfgs)}/{t}", "fam": "maint", "obj": "hex",
-                  "inds": cfgs, "late": late, "hex": {}, "stream": make_stream(rng, n, "mixed", tf=tf),
+                  "inds": cfgs, "late": late, "hex": {},
+                  "stream": make_stream(rng, n, "mixed", tf=tf, regular=(tf_regular(rng, tf) if ladder else None)),
                   "twins": ["final_batch"], "member_forms": ["obj"] * len(cfgs),
                   "clause_props": {"exc": [pid], "batch": [pid], "value": [pid]}}
             ops = MAINT_OPS
@@ -819,7 +825,7 @@ def fam_reads(rng, pid, count, forms=("candle",), touches=True):
         names = [c.build(standalone=not hexobj).name for c in cfgs]
         kinds = [c.kind for c in cfgs]
         form = rng.choice(forms)
-        style = rng.choice(["mixed", "flat", "up", "walk"])
+        style = rng.choice(["mixed", "flat", "up", "walk", "decimal"])     # decimal: also fractional volumes
         regular = tf_regular(rng, tf) if tf else None
         st = make_stream(rng, n, style, tf=tf, regular=regular)
         pre, chunks = compositions(rng, n, (0, 1, 3), 3)
